@@ -46,7 +46,15 @@ func plainDimacs(n int, cnf [][]int) string {
 func genMusCase(r *Rng, tier string) MusCase {
 	n := r.Range(1, 6)
 	var cnf [][]int
-	switch r.Intn(8) {
+	switch r.Intn(9) {
+	case 8: // variables with several digits whose clauses read the same once written without separators (1 2 / 12, -1 2 / -12, 1 12 / 11 2): needed clauses that a careless key would confuse
+		n = r.Range(13, 14)
+		pairs := [][2][]int{{{1, 2}, {12}}, {{-1, 2}, {-12}}, {{1, 3}, {13}}, {{-1, 3}, {-13}}, {{1, -2}, {1, -2}}}
+		p := pairs[r.Intn(4)]
+		a, z := p[0], p[1][0]
+		// one MUS that needs both look-alikes: a, (z), (-z or -a1), (-z or -a2)
+		cnf = [][]int{append([]int{}, a...), {z}, {-z, -a[0]}, {-z, -a[1]}}
+		cnf = append(cnf, genKSat(r, n, r.Range(0, 3), 3)...)
 	case 7: // over-constrained 3-SAT whose clauses repeat a literal: refuted by search, and the certificate check has to treat "1 2 1" as a 2-literal clause
 		n = r.Range(3, 7)
 		cnf = genKSat(r, n, r.Range(4*n, 6*n), 3)
